@@ -126,8 +126,14 @@ Definition import_step_ok (P : params) (pool : list hdr) (a o : obs)
     partial_extb (o_f a) start filef (o_f o) &&
     implb (consistent pool a) (consistent pool o) &&
     (* all or nothing per batch: unless the compensating rollback itself was
-       made to fail, the stores keep their height difference *)
-    (rbfail || (lenZ (o_b o) - lenZ (o_f o) =? lenZ (o_b a) - lenZ (o_f a))) &&
+       made to fail, the filter store never overtakes the block store, the gap
+       between them does not widen, and the block store only grows once the
+       gap is closed (so stores at equal heights stay at equal heights) *)
+    (rbfail ||
+     let gap_o := lenZ (o_b o) - lenZ (o_f o) in
+     let gap_a := lenZ (o_b a) - lenZ (o_f a) in
+     (gap_o <=? gap_a) && ((0 <=? gap_o) || (gap_o =? gap_a)) &&
+     ((lenZ (o_b o) =? lenZ (o_b a)) || (gap_o =? 0))) &&
     (if consistent pool a then true
      else list_eqb (o_b o) (o_b a) && list_eqb (o_f o) (o_f a)) &&
     valid_kept.
